@@ -50,7 +50,15 @@ TYPES = [
                                                              'case-insensitive; s4.6.1 terms = *( 1*SP term )'),
 ]
 
-CASES = (str.lower, str.upper, str.title, lambda s: ''.join(c.upper() if i % 2 else c.lower() for i, c in enumerate(s)))
+def _tail_upper(s):
+    """Only the last '-' / '_' separated segment in upper case ('script-src-ELEM'): a name that extends another name
+    keeps the shorter name's exact spelling as a prefix."""
+    i = max(s.rfind('-'), s.rfind('_'))
+    return s[:i + 1].lower() + s[i + 1:].upper()
+
+
+CASES = (str.lower, str.upper, str.title, lambda s: ''.join(c.upper() if i % 2 else c.lower() for i, c in enumerate(s)),
+         _tail_upper, lambda s: s[:1].upper() + s[1:].lower(), lambda s: s[:-1].lower() + s[-1:].upper())
 WS = ('', ' ', '  ', '\t')
 
 
